@@ -138,7 +138,8 @@ CHECKS = {
         ref="7 (C16)"),
     "C17": dict(
         text="Lean 4 proof (full for the modelled rejection classes): rejected_noop - for every state, op, argument, oracle, tape: a rejected "
-             "call returns the identical state and random streams. Malformed calls of every class at random positions: model vs "
+             "call returns the identical state and random streams; runHist_erase_rejected / runOuts_erase_rejected - erasing the rejected calls of any "
+             "history changes neither the final state nor what the accepted calls return or request. Malformed calls of every class at random positions: model vs "
              "implementation, and continuation-on-bandit vs continuation-on-copy-taken-before twins.",
         ref="7 (C17)"),
     "C18": dict(
